@@ -114,21 +114,22 @@ def is_docstring_or_annotation_site(src, idx):
     return False
 
 
-def gen():
+def gen(more=False):
     os.makedirs("/tmp/mutcamp", exist_ok=True)
-    rng = random.Random(20260929)
-    muts = []
+    rng = random.Random(20260930 if more else 20260929)
+    muts = load() if more else []
+    seen = {(m["file"], m["kind"], m["idx"]) for m in muts}
     for f in FILES:
         src = open(os.path.join("/repo", f)).read()
         base = ast.unparse(ast.parse(src))
         ss = sites(ast.parse(src))
         rng.shuffle(ss)
-        cap = 140 if f == "trie/hexary.py" else 60
+        cap = (400 if more else 140) if f == "trie/hexary.py" else (150 if more else 60)
         n = 0
         for kind, idx in ss:
             if n >= cap:
                 break
-            if kind == "not":
+            if kind == "not" or (f, kind, idx) in seen:
                 continue
             r = mutate(src, kind, idx)
             if r is None:
@@ -246,4 +247,4 @@ if __name__ == "__main__":
     if cmd == "show":
         show(sys.argv[2])
     else:
-        {"gen": gen, "tests": tests, "checks": checks, "report": report}[cmd]()
+        {"gen": gen, "more": lambda: gen(True), "tests": tests, "checks": checks, "report": report}[cmd]()
